@@ -51,6 +51,8 @@ type fault struct {
 	// retryPartial: in the same Write as the HelloRetryRequest the backend also hands over the first 3 bytes of its next
 	// record (a segment boundary inside a record): the alert must still reach the client intact
 	retryPartial bool
+	// retryFrag > 0: the faulty second hello arrives framed in two records, the first carrying retryFrag bytes of the message
+	retryFrag int
 	// mayBeValid: the mutation can yield a hello that is still well formed; then
 	// transparent handling (not an abort) is admissible too.
 	mayBeValid bool
@@ -119,6 +121,23 @@ func generateMode(key echx.KeyPair, b base, thorough, retry bool) (out []fault) 
 	}
 	plain := s.Outer.Clone()
 	plain.Exts = slices.Delete(plain.Exts, s.EchIdx, s.EchIdx+1)
+	// ... the misplaced extension with an empty or malformed body is no more acceptable than a well-formed one
+	for bi, body := range [][]byte{{}, {1}, {4, 0, 0x2b}, {0}} {
+		for _, pos := range []int{0, nOuter / 2, nOuter} {
+			s1 := s
+			s1.Outer = s.Outer.Clone()
+			s1.Outer.Exts = slices.Insert(s1.Outer.Exts, pos, tlsref.Ext{Type: tlsref.ExtOuterExtensions, Data: body})
+			if pos <= s.EchIdx {
+				s1.EchIdx++
+			}
+			add("outer-has-ech_outer_extensions-malformed-body", fmt.Sprintf("body%d pos%d", bi, pos), []string{IP, DE}, s1.Build().Outer.Record())
+			h := plain.Clone()
+			h.Exts = slices.Insert(h.Exts, min(pos, len(h.Exts)), tlsref.Ext{Type: tlsref.ExtOuterExtensions, Data: body})
+			add("plain-hello-has-ech_outer_extensions-malformed-body", fmt.Sprintf("body%d pos%d", bi, pos), []string{IP, DE}, h.Record())
+			f := add("plain-hello-has-ech_outer_extensions-malformed-body-nokeys", fmt.Sprintf("body%d pos%d", bi, pos), []string{IP, DE}, h.Record())
+			f.noKeys = true
+		}
+	}
 	for pos := 0; pos <= len(plain.Exts); pos += 3 {
 		h := plain.Clone()
 		h.Exts = slices.Insert(h.Exts, pos, tlsref.OuterExtensions(tlsref.ExtKeyShare))
@@ -401,7 +420,12 @@ func evalRetried(r *ev.Run, key echx.KeyPair, f fault) {
 		return
 	}
 	before := len(sess.T.OutBytes())
-	got, err, p := sess.ClientSend(f.stream)
+	stream := f.stream
+	if f.retryFrag > 0 && len(stream) > 5+f.retryFrag {
+		stream = tlsref.Fragment(0x0303, stream[5:], f.retryFrag)
+		k += fmt.Sprintf(":second-hello-in-two-records")
+	}
+	got, err, p := sess.ClientSend(stream)
 	oc := ""
 	switch {
 	case p != nil:
@@ -431,7 +455,7 @@ func evalRetried(r *ev.Run, key echx.KeyPair, f fault) {
 			r.Violation("no-close-after-alert", "transport not closed after the fatal alert (fault "+f.Name+")", replay)
 		}
 	}
-	r.Eval(string(f.stream)+fmt.Sprint("retried", f.retryPartial), f.Name+" -> "+oc)
+	r.Eval(string(f.stream)+fmt.Sprint("retried", f.retryPartial, f.retryFrag), f.Name+" -> "+oc)
 }
 
 func evalFault(r *ev.Run, key echx.KeyPair, f fault) {
@@ -502,7 +526,7 @@ func alertKey(out []byte) string {
 }
 
 func Run(r *ev.Run) {
-	r.Rule("fault enumeration (E1): for each base hello (3 AEADs x compression on/off x ECH extension first/middle/last) the catalogue: ech_outer_extensions in the outer hello at every position; ECH type inner at every position; unknown ECH types; authentic payload with 5 non-matching/absent outer SNIs; inner without / with outer-type ECH extension; inner not offering TLS 1.3; every padding byte x every bit non-zero; reference list odd/short/long/empty/out-of-order (every adjacent swap)/repeated (every element)/absent (every element)/naming 0xfe0d,0xfd00 at every position/two markers; +-1 on every length field of outer and of encoded inner (re-sealed); record cut at every byte (then end of stream / a non-handshake record / a garbage continuation); non-handshake first record; every sealed-spec entry of the catalogue (outer SNI, inner ECH extension, TLS 1.3, padding, reference-list faults, malformed inner extensions) ALSO applied to the hello that follows a HelloRetryRequest (history: valid first hello, backend HRR, faulty second hello sealed at sequence number 1; Conn.Read is the call that meets it; also with the first bytes of the backend's next record already handed to Write when the faulty hello arrives); plus all pairs of single faults that compose (multi-fault). distinct = distinct (stream, keys?) inputs")
+	r.Rule("fault enumeration (E1): for each base hello (3 AEADs x compression on/off x ECH extension first/middle/last) the catalogue: ech_outer_extensions in the outer hello at every position (well-formed, empty and malformed bodies); ECH type inner at every position; unknown ECH types; authentic payload with 5 non-matching/absent outer SNIs; inner without / with outer-type ECH extension; inner not offering TLS 1.3; every padding byte x every bit non-zero; reference list odd/short/long/empty/out-of-order (every adjacent swap)/repeated (every element)/absent (every element)/naming 0xfe0d,0xfd00 at every position/two markers; +-1 on every length field of outer and of encoded inner (re-sealed); record cut at every byte (then end of stream / a non-handshake record / a garbage continuation); non-handshake first record; every sealed-spec entry of the catalogue (outer SNI, inner ECH extension, TLS 1.3, padding, reference-list faults, malformed inner extensions) ALSO applied to the hello that follows a HelloRetryRequest (history: valid first hello, backend HRR, faulty second hello sealed at sequence number 1; Conn.Read is the call that meets it; also with the first bytes of the backend's next record already handed to Write when the faulty hello arrives, and with the faulty second hello framed in two records whose first carries 1..4 or 40 bytes of the message); plus all pairs of single faults that compose (multi-fault). distinct = distinct (stream, keys?) inputs")
 	r.Assume("reference sender validated against crypto/tls", "admissible error classes per fault are taken from the property statement and draft §5.1/§7/§7.1; for +-1 length mutations that leave a well-formed hello, transparent handling is admissible")
 	key := echx.NewKey("c04", 42, echx.AllSuites, pubName)
 	if err := c03.SelfValidate(echx.NewKey("c03", 7, echx.AllSuites, "public.example")); err != nil {
@@ -518,10 +542,20 @@ func Run(r *ev.Run) {
 				all = append(all, generate(key, base{aead, comp, pos}, r.Thorough())...)
 				rf := generateMode(key, base{aead, comp, pos}, r.Thorough(), true)
 				all = append(all, rf...)
+				seenKind := map[string]bool{}
 				for _, f := range rf {
 					if !strings.Contains(f.Name, "nonzero-padding") || strings.HasSuffix(f.Arg, "bit0") {
 						f.retryPartial = true
 						all = append(all, f)
+						f.retryPartial = false
+					}
+					// one representative of each kind also with the second hello framed in two records (first fragment of 1..4 and 40 bytes)
+					if !seenKind[f.Name] {
+						seenKind[f.Name] = true
+						for _, cut := range []int{1, 2, 3, 4, 40} {
+							f.retryFrag = cut
+							all = append(all, f)
+						}
 					}
 				}
 			}
